@@ -276,9 +276,44 @@ func checkGrammar(c Case) error {
 			}
 		}
 		vt.Label("with-sibling")
+		// the results of earlier parses are put to use the way the generators
+		// use them (both registered in one type set, where a struct whose name
+		// is taken gets another one; Go type, reader and IDL name asked for):
+		// whatever that does to those results, a later Parse of the same string
+		// still answers for the string it is given
+		if p := useParsed(c.Sibling, c.Sig); p != nil {
+			return vt.Violationf("C09:use-panic", "registering the types parsed from %q and %q in one TypeSet panicked: %v", c.Sibling, c.Sig, p)
+		}
+		for _, sg := range []string{c.Sig, c.Sibling} {
+			if err := checkOne(Case{Kind: c.Kind, Sig: sg}, false); err != nil {
+				return vt.Violationf(vt.ClassOf(err)+":after-use", "after the types parsed from %q and %q had been registered in one TypeSet: %v", c.Sibling, c.Sig, err)
+			}
+		}
 		return nil
 	}
 	return checkOne(c, true)
+}
+
+func useParsed(sigs ...string) (panicked interface{}) {
+	defer func() {
+		if r := recover(); r != nil {
+			panicked = r
+		}
+	}()
+	set := signature.NewTypeSet()
+	for _, sg := range sigs {
+		ty, err := signature.Parse(sg)
+		if err != nil {
+			continue
+		}
+		ty.RegisterTo(set)
+		if tu, ok := ty.(*signature.TupleType); ok {
+			tu.ConvertMetaObjects()
+		}
+		_ = ty.SignatureIDL()
+		_ = ty.TypeName()
+	}
+	return nil
 }
 
 func checkOne(c Case, count bool) error {
